@@ -113,4 +113,71 @@ theorem leaf_expm1 {δ : ℝ} (hδ0 : 0 ≤ δ) {x : ℝ} (hx : x ≤ 0) :
 theorem add_fin_emb (x : ℝ) (r : LP) : XR.add (XR.fin x) (emb r) = emb (addLP x r) := by
   cases r <;> rfl
 
+/-! ### cumulative sums over any admissible addition -/
+
+/-- `rs` is a run of the scan from state `s` over `ps` in which every step is an admissible addition -/
+def ScanNear (E : ℝ → ℝ) : LP → List LP → List LP → Prop
+  | _, [], rs => rs = []
+  | s, p :: ps, rs => ∃ r rs', rs = r :: rs' ∧ AddNear E s p r ∧ ScanNear E r ps rs'
+
+theorem ScanNear.length {E} : ∀ {ps : List LP} {s : LP} {rs : List LP}, ScanNear E s ps rs → rs.length = ps.length
+  | [], _, _, h => by simp only [ScanNear] at h; simp [h]
+  | _ :: ps, _, _, h => by
+    obtain ⟨r, rs', rfl, _, h'⟩ := h
+    simp [ScanNear.length h']
+
+/-- the exact-model scan is an admissible run -/
+theorem scanNear_model (E : ℝ → ℝ) : ∀ (ps : List LP) (s : LP), ScanNear E s ps (lnCumsumFrom E s ps)
+  | [], _ => rfl
+  | p :: ps, s => ⟨_, _, rfl, addNear_model .., scanNear_model E ps _⟩
+
+theorem ScanNear.error {E δ} (h : ApproxExp E δ) (hδ : δ < 1) : ∀ (ps : List LP) (s : LP) (rs : List LP) (T : ℝ) (j : ℕ),
+    0 ≤ T → |lin s - T| ≤ (δ + 2 * j * dropTol) * T → ScanNear E s ps rs → ∀ (k : ℕ) (r : LP), rs[k]? = some r →
+    δ + 2 * (j + k + 1 : ℕ) * dropTol ≤ 1 →
+    |lin r - (T + ((ps.take (k + 1)).map lin).sum)| ≤ (δ + 2 * (j + k + 1 : ℕ) * dropTol) * (T + ((ps.take (k + 1)).map lin).sum) := by
+  have hδ0 := h.delta_nonneg
+  have hτ := dropTol_nonneg
+  intro ps
+  induction ps with
+  | nil => intro s rs T j _ _ hs k r hr; simp only [ScanNear] at hs; subst hs; simp at hr
+  | cons p ps ih =>
+    intro s rs T j hT hs hscan k r hr hk
+    obtain ⟨r0, rs', rfl, hadd, hrest⟩ := hscan
+    have hp := lin_nonneg p
+    have hs0 := lin_nonneg s
+    have hεj : δ + 2 * (j : ℝ) * dropTol ≤ 1 := by
+      have : (j : ℝ) ≤ ((j + k + 1 : ℕ) : ℝ) := by push_cast; linarith [(Nat.cast_nonneg k : (0 : ℝ) ≤ k)]
+      nlinarith
+    have hεj0 : 0 ≤ δ + 2 * (j : ℝ) * dropTol := by positivity
+    -- one step
+    have hstep : |lin r0 - (T + lin p)| ≤ (δ + 2 * ((j + 1 : ℕ) : ℝ) * dropTol) * (T + lin p) := by
+      have h1 := hadd.error h hδ
+      have h2 : δ * min (lin s) (lin p) ≤ δ * lin p := mul_le_mul_of_nonneg_left (min_le_right _ _) hδ0
+      have h3 : max (lin s) (lin p) ≤ lin s + lin p := max_le (by linarith) (by linarith)
+      have h4 : lin s ≤ (1 + (δ + 2 * (j : ℝ) * dropTol)) * T := by have := (abs_le.mp hs).2; linarith
+      have h5 : lin s ≤ 2 * T := by nlinarith
+      have h6 : dropTol * max (lin s) (lin p) ≤ dropTol * (2 * T + lin p) :=
+        mul_le_mul_of_nonneg_left (by linarith) hτ
+      have e : lin r0 - (T + lin p) = (lin r0 - (lin s + lin p)) + (lin s - T) := by ring
+      rw [e]
+      calc _ ≤ |lin r0 - (lin s + lin p)| + |lin s - T| := abs_add_le _ _
+        _ ≤ (δ * lin p + dropTol * (2 * T + lin p)) + (δ + 2 * (j : ℝ) * dropTol) * T := by linarith
+        _ ≤ (δ + 2 * ((j + 1 : ℕ) : ℝ) * dropTol) * (T + lin p) := by
+            push_cast
+            nlinarith [mul_nonneg hτ hp, mul_nonneg hδ0 hT, mul_nonneg hτ hT, mul_nonneg (mul_nonneg (Nat.cast_nonneg j : (0:ℝ) ≤ j) hτ) hp]
+    cases k with
+    | zero =>
+      simp only [List.getElem?_cons_zero, Option.some.injEq] at hr
+      subst hr
+      simpa using hstep
+    | succ k =>
+      simp only [List.getElem?_cons_succ] at hr
+      have hk' : δ + 2 * ((j + 1 + k + 1 : ℕ) : ℝ) * dropTol ≤ 1 := by
+        have : (j + 1 + k + 1 : ℕ) = (j + (k + 1) + 1 : ℕ) := by omega
+        rw [this]; exact hk
+      have := ih r0 rs' (T + lin p) (j + 1) (by linarith) hstep hrest k r hr hk'
+      have e : (j + 1 + k + 1 : ℕ) = (j + (k + 1) + 1 : ℕ) := by omega
+      rw [e] at this
+      simpa [List.take_succ_cons, add_assoc] using this
+
 end RbV.C15
